@@ -186,6 +186,7 @@ fn gen(r: &mut Rng, tier: Tier, out: &mut Out) {
 	for _ in 0..500 * scale {
 		let n = *r.pick(&[2, 2, 2, 3, 4]);
 		let mut cfg = MapCfg::basic(n);
+		cfg.top_doc_pct = 20;
 		cfg.max_classes = r.range(1, 4);
 		cfg.nest_depth = 0;
 		cfg.absent_pct = *r.pick(&[0, 15, 40]);
@@ -208,6 +209,7 @@ fn gen(r: &mut Rng, tier: Tier, out: &mut Out) {
 	// 2. pairs from a common ancestor
 	for i in 0..400 * scale {
 		let mut cfg = MapCfg::basic(2);
+		cfg.top_doc_pct = 20;
 		cfg.max_classes = if r.chance(1, 25) { 0 } else { r.range(1, 4) };
 		cfg.nest_depth = 0;
 		let absent = *r.pick(&[0, 0, 0, 0, 3, 10]);
@@ -247,6 +249,7 @@ fn gen(r: &mut Rng, tier: Tier, out: &mut Out) {
 	// 3. .tinydiff text
 	for _ in 0..300 * scale {
 		let mut cfg = MapCfg::basic(2);
+		cfg.top_doc_pct = 20;
 		cfg.max_classes = r.range(1, 3);
 		cfg.nest_depth = r.below(2);
 		cfg.absent_pct = 30;
